@@ -33,6 +33,16 @@ TruncCases == \A mode \in {"cbc", "gcm"} : \A keep \in {0, 1, 7, 8, 15, 16, 17, 
 GarbageCases == \A mode \in {"cbc", "gcm"} : \A n \in {0, 1, 3, 4, 15, 16, 22, 24, 32, 44, 64} : \A kind \in {"zero", "rand", "magic", "notenc"} :
     Emit([fn |-> "garbage", s |-> <<>>, a |-> <<mode, n, kind>>, out |-> <<>>])
 
+\* corruption of the ENCODED text (hex for GCM, base64 for Decrypt): the character at a position is replaced by each of
+\* the 256 byte values.  GCM: error unless the replacement spells the same hex digit (other letter case); base64: never a
+\* fault, and an error for every byte outside the alphabet.  Appended junk ("=", "==", a stray character, a newline) is
+\* never a fault either, and an error in hex.
+EncTamper == \A mode \in {"cbc", "gcm"} : \A n \in {0, 5, 16} : \A where \in {"first", "second", "mid", "last"} : \A b \in 0..255 :
+    Emit([fn |-> "enctamper", s |-> <<>>, a |-> <<mode, n, where, b>>, out |-> <<>>])
+EncAppend == \A mode \in {"cbc", "gcm"} : \A n \in 0..18 : \A suffix \in {<<61>>, <<61, 61>>, <<61, 61, 61>>, <<65>>, <<65, 61>>, <<10>>, <<61, 10>>, <<65, 65, 61, 61>>} :
+    \A cut \in 0..2 :     \* characters removed from the end of the encoded text before the suffix is appended
+    Emit([fn |-> "encappend", s |-> suffix, a |-> <<mode, n, cut>>, out |-> <<>>])
+
 -----------------------------------------------------------------------------
 \* io.Reader contract: a reader hands out the remaining bytes in chunks of any size >= 0 and may deliver the last
 \* chunk together with io.EOF or report EOF separately.  A chunking is the sizes of the first three reads followed by a
@@ -54,6 +64,8 @@ ASSUME TamperCases
 ASSUME OtherKey
 ASSUME TruncCases
 ASSUME GarbageCases
+ASSUME EncTamper
+ASSUME EncAppend
 ASSUME StreamCases
 ASSUME StreamBad
 Init == x = 0
